@@ -4,7 +4,11 @@ import PV.Model.Tree.RB
 import PV.Model.Tree.Run
 import PV.Driver.Util
 /-! driver for the tree family (C12, C13, C14).
-    ops:  new bst|rb|avl  | ins ORD | rem ORD | get ORD | each J | clear | shape | count
+    ops:  new bst|rb|avl [plain|konly|vonly|data|wide|nk=ORD]… | ins ORD | insv ORD | insk | inskv | insf ORD | rem ORD | remn |
+          get ORD | getn | each J | clear | free | shape | count | api
+    (`wide`: the harness comparator answers with arbitrary magnitudes — the model's `Ordering` is the sign, nothing to do here;
+     `nk=ORD`: the ordinal the NULL key compares as; `remn`/`getn`: the NULL pointer as the probe key; `free`: p_tree_free =
+     clear + release, afterwards there is no tree until the next `new`; `api`: type and the NULL-argument entry points)
     Key objects are `(ord, id)`, value objects are ids; ids are handed out by a counter exactly as
     the harness does, so destroy logs can be compared object by object.
     Spec column: a strictly sorted association list. -/
@@ -36,6 +40,9 @@ structure St where
   plain : Bool := false           -- tree created without destroy notifiers: nothing is ever destroyed
   konly : Bool := false           -- only a key notifier
   vonly : Bool := false           -- only a value notifier
+  alive : Bool := false           -- a tree exists (after `new`, until `free`)
+  nk : Nat := 0                   -- ordinal of the NULL key
+  ty : String := "bst"
 
 /-- object ids from `nullBase` on stand for the NULL pointer (a legal key and a legal value): the harness cannot tell two
     NULLs apart, so they all print as `N` -/
@@ -78,15 +85,20 @@ def doOp (s : St) (op : Op K V) (bump : Bool) : IO (St × Bool) := do
     return ({ s with t := t', spec := sp', next := if bump then s.next + 1 else s.next }, false)
 
 def step (s : St) (toks : List String) : IO (St × Bool) := do
+  if !s.alive && toks.head? != some "new" then
+    IO.println "bad-op"; return (s, false)
   match toks with
   | "new" :: ty :: flags =>
     let plain := flags.contains "plain"
     let konly := flags.contains "konly"
     let vonly := flags.contains "vonly"
+    let nk := (flags.filterMap fun f => if f.startsWith "nk=" then (f.drop 3).toNat? else none).head?.getD 0
+    let nk := if nk < 4096 then nk else 0
+    let mk (t : AnyT) : St := { t := t, plain := plain, konly := konly, vonly := vonly, alive := true, nk := nk, ty := ty }
     match ty with
-    | "bst" => IO.println "ok"; return ({ t := .bst (.nil, 0), plain := plain, konly := konly, vonly := vonly }, false)
-    | "avl" => IO.println "ok"; return ({ t := .avl (.nil, 0), plain := plain, konly := konly, vonly := vonly }, false)
-    | "rb" => IO.println "ok"; return ({ t := .rb (.nil, 0), plain := plain, konly := konly, vonly := vonly }, false)
+    | "bst" => IO.println "ok"; return (mk (.bst (.nil, 0)), false)
+    | "avl" => IO.println "ok"; return (mk (.avl (.nil, 0)), false)
+    | "rb" => IO.println "ok"; return (mk (.rb (.nil, 0)), false)
     | _ => IO.println "bad-op"; return (s, false)
   | ["ins", o] =>
     match o.toNat? with
@@ -106,8 +118,20 @@ def step (s : St) (toks : List String) : IO (St × Bool) := do
     match o.toNat? with
     | none => IO.println "bad-op"; return (s, false)
     | some o => doOp s (.ins (o, s.next) (nullBase + s.next)) true
-  | ["insk"] => doOp s (.ins (0, nullBase + s.next) s.next) true                 -- NULL key (orders as 0)
-  | ["inskv"] => doOp s (.ins (0, nullBase + s.next) (nullBase + s.next)) true   -- NULL key and NULL value
+  | ["insk"] => doOp s (.ins (s.nk, nullBase + s.next) s.next) true                 -- NULL key (orders as `nk`)
+  | ["inskv"] => doOp s (.ins (s.nk, nullBase + s.next) (nullBase + s.next)) true   -- NULL key and NULL value
+  | ["remn"] => doOp s (.rem (s.nk, 0)) false                                       -- the NULL pointer as probe
+  | ["getn"] => doOp s (.get (s.nk, 0)) false
+  | ["free"] =>                    -- p_tree_free: p_tree_clear, then the handle is gone
+    match s.t.step .clear with
+    | some (_, .cleared _ d) =>
+      let (_, so) := specStep cmpK s.spec .clear
+      let mode := if s.plain then 1 else if s.konly then 2 else if s.vonly then 3 else 0
+      let sd' := match so with | .cleared _ d' => fmtLogP mode d' | _ => "?"
+      IO.println (sd ("d=" ++ fmtLogP mode d) ("d=" ++ sd'))
+      return ({ s with alive := false, spec := [] }, false)
+    | _ => IO.println "fault"; return (s, true)
+  | ["api"] => IO.println s!"type={s.ty} null-api=ok"; return (s, false)
   | ["rem", o] =>
     match o.toNat? with
     | none => IO.println "bad-op"; return (s, false)
